@@ -8,7 +8,8 @@ namespace scen_mutex {
 enum Oracle : unsigned { O_EXCLUSION = 1, O_FIFO = 2 };
 
 struct Round { uint8_t acq, cs_yields, rel, pre_yields; };
-struct Contender { uint8_t flavour; std::vector<Round> rounds; bool par = false; };   // par: 'release on helper thread' rounds use parallel_resume(own.release()) instead   // flavour 0 coroutine, 1 thread
+struct Contender { uint8_t flavour; std::vector<Round> rounds; bool par = false; };   // flavour 2 (trailing byte): callback contender - its single round runs inside the resume function of an awaiter it registered, i.e. nested inside the previous owner's release
+// par: 'release on helper thread' rounds use parallel_resume(own.release()) instead   // flavour 0 coroutine, 1 thread
 struct Prog { std::vector<Contender> c; bool adapter = false; };   // adapter: every contender keeps its ownership in ONE shared object (BasicLockable adapter pattern: lock() stores into a member, unlock() releases it)
 
 inline Prog decode(hz::Reader &r) {
@@ -31,6 +32,7 @@ inline Prog decode(hz::Reader &r) {
     // trailing bytes (older replay files keep their meaning)
     for (auto &c : p.c) c.par = r.mod(4) == 3;
     p.adapter = r.mod(3) == 1;
+    for (auto &c : p.c) if (r.mod(4) == 2) { c.flavour = 2; c.rounds.resize(1); if (c.rounds[0].acq == 2) c.rounds[0].acq = 0; }
     return p;
 }
 
@@ -42,7 +44,7 @@ inline std::string describe(const Prog &p) {
     hz::Desc d;
     d << (unsigned)p.c.size() << " contenders" << (p.adapter ? " keeping their ownership in one shared object (lock/unlock adapter)" : "") << ";";
     for (size_t i = 0; i < p.c.size(); i++) {
-        d << " C" << (unsigned)i << (p.c[i].flavour ? "(thread):" : "(coroutine):");
+        d << " C" << (unsigned)i << (p.c[i].flavour == 2 ? "(callback awaiter: critical section and release run inside the previous owner's release):" : p.c[i].flavour ? "(thread):" : "(coroutine):");
         for (auto &x : p.c[i].rounds)
             d << " [yield*" << (unsigned)x.pre_yields << ", " << (p.c[i].flavour ? acq_t[x.acq] : acq_c[x.acq]) << ", CS yield*"
               << (unsigned)x.cs_yields << ", " << (x.rel == 3 && p.c[i].par ? "parallel_resume(release())" : p.c[i].flavour ? rel_t[x.rel] : rel_c[x.rel]) << "]";
@@ -209,6 +211,40 @@ inline void contender_thread(Ctx &ctx, int id) {
     }
 }
 
+// callback contender: registers a hand-written awaiter; when the mutex is handed over its resume function runs the
+// critical section and the release - on whatever thread released the mutex, nested inside that release
+struct CbContender : cocls::awaiter {
+    Ctx *ctx; int id; cocls::co_awaiter<cocls::mutex> aw; std::atomic<int> done{0};
+    CbContender(Ctx &c, int id_) : ctx(&c), id(id_), aw(c.mx.lock()) { set_resume_fn(&fn); }
+    void body() {
+        const Round &x = ctx->prog->c[(size_t)id].rounds[0];
+        Req &rq = ctx->reqs[(size_t)id][0];
+        cocls::mutex::ownership local;
+        cocls::mutex::ownership &own = ctx->prog->adapter ? ctx->guard : local;
+        own = aw.await_resume();
+        HZ_CHECK((bool)own, "lock() handed an empty ownership to a callback awaiter");
+        cs_body(*ctx, rq, id, x.cs_yields);
+        switch (x.rel) {
+            case 1: own = cocls::mutex::ownership(); break;
+            case 2: { auto sp = own.release(); hz::upoint(); sp.clear(); } break;
+            default: own.release(); break;
+        }
+        rq.t_end = hz::tick();
+        done.store(1, std::memory_order_release);
+    }
+    static cocls::suspend_point<void> fn(cocls::awaiter *me, void *) noexcept { static_cast<CbContender *>(me)->body(); return {}; }
+};
+inline void contender_callback(Ctx &ctx, int id) {
+    const Round &x = ctx.prog->c[(size_t)id].rounds[0];
+    Req &rq = ctx.reqs[(size_t)id][0];
+    hz::upoints(x.pre_yields);
+    CbContender cb(ctx, id);
+    rq.t_begin = hz::tick();
+    if (cb.aw.await_ready() || !cb.aw.subscribe(&cb)) { cb.body(); return; }      // free, or acquired while registering: owner at once
+    rq.suspended = true; rq.t_susp = hz::tick();
+    while (!cb.done.load(std::memory_order_acquire)) vrt::yield();
+}
+
 // returns number of requests that had to wait
 inline void run(hz::Reader &r, unsigned oracle) {
     Prog p = decode(r);
@@ -223,7 +259,9 @@ inline void run(hz::Reader &r, unsigned oracle) {
         }
         std::vector<std::thread> th;
         for (size_t i = 0; i < p.c.size(); i++) {
-            if (p.c[i].flavour == 0)
+            if (p.c[i].flavour == 2)
+                th.emplace_back([&ctx, i] { contender_callback(ctx, (int)i); });
+            else if (p.c[i].flavour == 0)
                 th.emplace_back([&ctx, i] { cocls::future<void> f = contender_coro(ctx, (int)i).start(); f.wait(); });
             else
                 th.emplace_back([&ctx, i] { contender_thread(ctx, (int)i); });
@@ -283,11 +321,13 @@ inline void run(hz::Reader &r, unsigned oracle) {
     unsigned par = 0; for (auto &c : p.c) if (c.par) for (auto &x : c.rounds) if (x.rel == 3) par++;
     hz::count(3, par);
     hz::count(4, p.adapter ? 1 : 0);
+    unsigned cbs = 0; for (auto &c : p.c) if (c.flavour == 2) cbs++;
+    hz::count(5, cbs);
 }
 
 static const char *const class_names[] = {
     "no-waiter/no-preemption", "no-waiter/preempted-in-library", "1-waiter/no-preemption", "1-waiter/preempted-in-library",
     "2+waiters/no-preemption", "2+waiters/preempted-in-library"};
-static const char *const counter_names[] = {"requests_that_waited", "try_lock_calls", "grants", "releases_through_parallel_resume", "cases_with_shared_ownership_object"};
+static const char *const counter_names[] = {"requests_that_waited", "try_lock_calls", "grants", "releases_through_parallel_resume", "cases_with_shared_ownership_object", "callback_contenders"};
 
 } // namespace scen_mutex
